@@ -106,7 +106,7 @@ func c17UniqueDB(r *rand.Rand, n int, platforms int) []vlib.Cmd {
 
 func engineCLISearch(ctx *Ctx) {
 	r := vlib.NewRand(ctx.Seed, ctx.Shard, "cli-search")
-	nHome := ctx.N(64, 800)
+	nHome := ctx.N(64, 3200)
 	for hI := 0; hI < nHome; hI++ {
 		base := filepath.Join(ctx.Scratch, fmt.Sprintf("cs%d", hI))
 		h := NewHome(base)
@@ -432,7 +432,7 @@ func c17RunStdin(h *Home, wtf string, stdin string, args ...string) CLIResult {
 // engineCLICommands: every documented sub-command starts and finishes without crashing for generated arguments.
 func engineCLICommands(ctx *Ctx) {
 	r := vlib.NewRand(ctx.Seed, ctx.Shard, "cli-commands")
-	n := ctx.N(1600, 16000)
+	n := ctx.N(1600, 48000)
 	base := filepath.Join(ctx.Scratch, "cc")
 	h := NewHome(base)
 	dbp := filepath.Join(base, "db.yml")
